@@ -59,10 +59,49 @@ def replay_extract(table, cfg, expanded, enc, blocked, member, lens, index='all'
     return False, 'ok', None
 
 
-def replay_refuse(case):
+def replay_two_readers(order, bodies):
+    from cardutil import mciipm
+    from . import packaged
+    ta, tb = 'IP0075T1', 'IP0095T1'
+    la = packaged.param_tables()[ta]
+    swapped = {ta: SUBID[tb], tb: SUBID[ta]}
+    rows_a = ['2100000A' + SUBID[ta] + bodies[0], '2100001A' + SUBID[tb] + bodies[1]]
+    rows_b = ['2100002A' + swapped[ta] + bodies[2], '2100003A' + swapped[tb] + bodies[3]]
+
+    def mkfile(rows, ids):
+        f = io.BytesIO()
+        w = mciipm.VbsWriter(f)
+        for t in (ta, tb):
+            w.write(((' ' * 11 + 'IP0000T1' + t).ljust(243) + ids[t] + ' ' * 10).encode('latin_1'))
+        w.write(TRAILER.encode('latin_1'))
+        for r in rows:
+            w.write(r.encode('latin_1'))
+        w.close()
+        f.seek(0)
+        return f
+    fa, fb = mkfile(rows_a, {ta: SUBID[ta], tb: SUBID[tb]}), mkfile(rows_b, swapped)
+    try:
+        if order == 'open-both-first':
+            ra, rb = mciipm.IpmParamReader(fa, ta), mciipm.IpmParamReader(fb, ta)
+            got_a, got_b = list(ra), list(rb)
+        else:
+            got_a = list(mciipm.IpmParamReader(fa, ta))
+            got_b = list(mciipm.IpmParamReader(fb, ta))
+    except Exception as e:
+        return True, 'raised %s: %s' % (type(e).__name__, e), 'C18/exception'
+    for name, got, row in (('first', got_a, rows_a[0]), ('second', got_b, rows_b[0])):
+        if len(got) != 1:
+            return True, 'the %s reader returned %d rows, its file has 1' % (name, len(got)), 'C18/two-readers'
+        for col, pos in la.items():
+            if got[0].get(col) != row[pos['start'] - 8:pos['end'] - 8]:
+                return True, '%s reader: column %s = %r' % (name, col, got[0].get(col)), 'C18/two-readers'
+    return False, 'ok', None
+
+
+def replay_refuse(case, expanded=False):
     from cardutil import mciipm
     extra = ['TRAILER RECORD IP0075T1  00000003'] if case == 'other-trailer-only' else []
-    f = _file(mciipm, extra + ['2100000A036' + 'X' * 40] + extra, 'latin_1', False, trailer=(case not in ('no-trailer', 'other-trailer-only')))
+    f = _file(mciipm, extra + [('2100000000AIP0040T1' if expanded else '2100000A036') + 'X' * 40] + extra, 'latin_1', False, trailer=(case not in ('no-trailer', 'other-trailer-only')))
     caller = {'IP0075T1': {'col': {'start': 19, 'end': 22}}, 'IP0190T1': {'col': {'start': 19, 'end': 30}}}
     if case == 'no-records':
         f = io.BytesIO(b'\x00\x00\x00\x00')
@@ -70,11 +109,11 @@ def replay_refuse(case):
         f = io.BytesIO(b'')
     try:
         if case == 'not-in-caller-config':
-            mciipm.IpmParamReader(f, 'IP0040T1', param_config=caller)
+            mciipm.IpmParamReader(f, 'IP0040T1', param_config=caller, expanded=expanded)
         elif case == 'ok-caller-config':
-            mciipm.IpmParamReader(f, 'IP0075T1', param_config=caller)
+            mciipm.IpmParamReader(f, 'IP0075T1', param_config=caller, expanded=expanded)
         else:
-            mciipm.IpmParamReader(f, 'IP0040T1' if case != 'no-config' else 'IP9999T1')
+            mciipm.IpmParamReader(f, 'IP0040T1' if case != 'no-config' else 'IP9999T1', expanded=expanded)
         raised = False
     except mciipm.MciIpmDataError:
         raised = True
